@@ -287,7 +287,11 @@ func (g *Gen) NextTxBy(a *app.ShutterApp, forced int) ([]byte, string) {
 		rs := g.someAddrs(1 + r.Intn(3))
 		ev := [][]byte{}
 		for range rs {
-			ev = append(ev, r.Bytes(1+r.Intn(4)))
+			n := 1 + r.Intn(4)
+			if r.Chance(1, 6) {
+				n = vh.Pick(r, 0, 32, 33, 255, 1000)
+			}
+			ev = append(ev, r.Bytes(n))
 		}
 		if r.Chance(1, 10) {
 			ev = ev[:len(ev)-1]
@@ -320,7 +324,19 @@ func (g *Gen) NextTxBy(a *app.ShutterApp, forced int) ([]byte, string) {
 		ac := g.someAddrs(r.Intn(3))
 		ev := [][]byte{}
 		for range ac {
-			e := new(big.Int).SetBytes(r.Bytes(r.Intn(4))).Bytes()
+			// mostly small values; sometimes values at the widths an encoder could assume
+			// (one BLS scalar is 32 bytes; nothing in the application bounds an evaluation)
+			n := r.Intn(4)
+			if r.Chance(1, 4) {
+				n = vh.Pick(r, 31, 32, 33, 48, 64)
+			}
+			eb := r.Bytes(n)
+			if n >= 31 && r.Chance(1, 2) {
+				for i := range eb {
+					eb[i] = 0xff
+				}
+			}
+			e := new(big.Int).SetBytes(eb).Bytes()
 			if r.Chance(1, 4) {
 				e = append([]byte{0, 0}, e...) // leading zeros are stripped by the application
 			}
@@ -486,4 +502,157 @@ func (g *Gen) TransitionHistory(nblocks, maxTx int) (History, []Resp, *app.Shutt
 		do(Call{Kind: "commit"})
 	}
 	return h, rs, a
+}
+
+// evalBytes draws the bytes of a polynomial evaluation / encrypted evaluation: mostly short,
+// sometimes at and around the widths an encoder could assume (32 = one BLS scalar).
+func (g *Gen) evalBytes(minLen int) []byte {
+	r := g.R
+	n := minLen + r.Intn(4)
+	if r.Chance(1, 3) {
+		n = vh.Pick(r, 31, 32, 33, 48, 64, 255)
+	}
+	b := r.Bytes(n)
+	if n >= 31 && r.Chance(1, 2) {
+		for i := range b {
+			b[i] = 0xff
+		}
+	}
+	return b
+}
+
+// DKGTx draws a transaction biased towards ACCEPTED messages of a running key generation: once
+// a DKG instance exists, a keyper of its config sends a commitment, evaluations to other
+// members, an accusation of other members, an apology to other members (with evaluations of
+// every width, none of which the application bounds) or a result vote, all for the newest eon;
+// before that it votes a config in. One transaction in five comes from NextTx.
+func (g *Gen) DKGTx(a *app.ShutterApp) ([]byte, string) {
+	r := g.R
+	if r.Chance(1, 5) {
+		return g.NextTx(a)
+	}
+	var newest uint64
+	found := false
+	for e := range a.DKGMap {
+		if !found || e > newest {
+			newest, found = e, true
+		}
+	}
+	if !found {
+		return g.TransitionTx(a)
+	}
+	d := a.DKGMap[newest]
+	var members []int
+	for i, ad := range g.U.Addrs {
+		if d.Config.IsKeyper(ad) {
+			members = append(members, i)
+		}
+	}
+	if len(members) == 0 {
+		return g.TransitionTx(a)
+	}
+	key := members[r.Intn(len(members))]
+	others := func() [][]byte {
+		var out [][]byte
+		for _, p := range r.Perm(len(members)) {
+			if members[p] != key && (len(out) == 0 || r.Chance(1, 2)) {
+				out = append(out, g.U.Addrs[members[p]].Bytes())
+			}
+		}
+		return out
+	}
+	var m *shmsg.Message
+	var note string
+	switch r.Intn(6) {
+	case 0:
+		gs := [][]byte{}
+		for i := uint64(0); i < d.Config.Threshold && i < 8; i++ {
+			gs = append(gs, g.U.Gammas[r.Intn(len(g.U.Gammas))])
+		}
+		if r.Chance(1, 6) {
+			gs = append(gs, g.U.Gammas[0])
+		}
+		m = &shmsg.Message{Payload: &shmsg.Message_PolyCommitment{PolyCommitment: &shmsg.PolyCommitment{Eon: newest, Gammas: gs}}}
+		note = "dkg polycommitment"
+	case 1:
+		rs := others()
+		ev := [][]byte{}
+		for range rs {
+			ev = append(ev, g.evalBytes(1))
+		}
+		m = &shmsg.Message{Payload: &shmsg.Message_PolyEval{PolyEval: &shmsg.PolyEval{Eon: newest, Receivers: rs, EncryptedEvals: ev}}}
+		note = "dkg polyeval"
+	case 2:
+		m = &shmsg.Message{Payload: &shmsg.Message_Accusation{Accusation: &shmsg.Accusation{Eon: newest, Accused: others()}}}
+		note = "dkg accusation"
+	case 3, 4:
+		ac := others()
+		ev := [][]byte{}
+		for range ac {
+			ev = append(ev, new(big.Int).SetBytes(g.evalBytes(0)).Bytes())
+		}
+		m = &shmsg.Message{Payload: &shmsg.Message_Apology{Apology: &shmsg.Apology{Eon: newest, Accusers: ac, PolyEvals: ev}}}
+		note = "dkg apology"
+	default:
+		m = shmsg.NewDKGResult(newest, r.Chance(1, 3))
+		note = "dkg result"
+	}
+	raw := SignTx(g.U.Keys[key], g.G.ChainID, g.nextNonce(), m)
+	g.sent = append(g.sent, raw)
+	return raw, fmt.Sprintf("%s by key %d", note, key)
+}
+
+// DKGHistory: a history drawn from DKGTx (no dev mode, so that validator updates are real).
+func (g *Gen) DKGHistory(nblocks, maxTx int) (History, []Resp, *app.ShutterApp) {
+	ge := g.RandomGenesis()
+	ge.DevMode = false
+	g.G = ge
+	a, err := NewApp(ge)
+	if err != nil {
+		panic(err)
+	}
+	h := History{Genesis: ge}
+	var rs []Resp
+	do := func(c Call) {
+		h.Calls = append(h.Calls, c)
+		rs = append(rs, Exec(a, c))
+	}
+	for b := 1; b <= nblocks; b++ {
+		do(Call{Kind: "begin", Height: int64(b)})
+		nt := 1 + g.R.Intn(maxTx)
+		for i := 0; i < nt; i++ {
+			raw, note := g.DKGTx(a)
+			if g.R.Chance(1, 4) {
+				do(Call{Kind: "check", Tx: raw, Note: note})
+			}
+			do(Call{Kind: "deliver", Tx: raw, Note: note})
+		}
+		do(Call{Kind: "end", Height: int64(b)})
+		do(Call{Kind: "commit"})
+	}
+	return h, rs, a
+}
+
+// TxStats counts, for a history and its responses, "<note kind>:code<k>" of every delivered
+// transaction and every event type emitted (input-distribution evidence).
+func TxStats(h History, rs []Resp, into map[string]int) {
+	for i, c := range h.Calls {
+		if c.Kind != "deliver" || i >= len(rs) {
+			continue
+		}
+		kind := c.Note
+		if j := indexOf(kind, " by key"); j >= 0 {
+			kind = kind[:j]
+		}
+		into[fmt.Sprintf("tx:%s:code%d", kind, rs[i].Code)]++
+	}
+}
+
+func indexOf(s, sub string) int {
+	for i := 0; i+len(sub) <= len(s); i++ {
+		if s[i:i+len(sub)] == sub {
+			return i
+		}
+	}
+	return -1
 }
